@@ -359,8 +359,11 @@ fn fmt_expected(kind: u8, seed: u32) -> Vec<u8> {
 const CAPS: [usize; 12] = [0, 1, 2, 7, 19, 20, 21, 39, 40, 41, 64, 300];
 
 fn gen_case(rng: &mut Rng, c14: bool) -> WriterCase {
-    let cap = if rng.chance(1, 10) {
+    // under Miri: small capacities only (filling 16 KiB byte by byte is slow there) and short histories
+    let cap = if rng.chance(1, 10) && !cfg!(miri) {
         None
+    } else if cfg!(miri) {
+        Some(*rng.pick(&CAPS[..11]))
     } else {
         Some(*rng.pick(&CAPS))
     };
@@ -372,7 +375,9 @@ fn gen_case(rng: &mut Rng, c14: bool) -> WriterCase {
     let sink = gen_sink(rng, class);
     let capv = cap.unwrap_or(16 << 10);
     let fmt_heavy = rng.chance(1, 4);
-    let nops = if cap.is_none() {
+    let nops = if cfg!(miri) {
+        2 + rng.small(14)
+    } else if cap.is_none() {
         5 + rng.small(40)
     } else {
         3 + rng.small(80)
@@ -557,6 +562,7 @@ impl Prop for WriterProp {
     fn exec(&self, case: &WriterCase, st: &mut Stats) -> RunOut {
         let sink = SimSink::new(case.sink.clone());
         let mut trace = Fnv::default();
+        let overruns0 = crate::alloc::overruns();
         let failing = case.class >= 2;
         let hostile = case.class >= 3;
         let pfx = if self.c14 { "C14" } else { "C11" };
@@ -908,6 +914,22 @@ impl Prop for WriterProp {
             }
         }
 
+        // whatever happened above: never let the writer's Drop run outside of a catch
+        if w.is_some() {
+            let _ = crash::catch(|| drop(w.take()));
+        }
+        // red zones behind every heap block of this thread: a write past the end of the writer's
+        // buffer is seen when the buffer is freed (at the latest by the drop above)
+        if self.c14 && violation.is_none() && crate::alloc::overruns() > overruns0 {
+            violation = viol(
+                "C14.heap_overrun",
+                "DeferredWriter wrote past the end of a heap block (red zone damaged)",
+                format!(
+                    "{} damaged block(s) freed during this history",
+                    crate::alloc::overruns() - overruns0
+                ),
+            );
+        }
         let s = sink.state();
         st.add("fault.short_write", s.c.short_writes);
         st.add("fault.write_interrupted", s.c.interrupted);
